@@ -64,8 +64,8 @@ SameUnit(a, b, iv) == UnitStart(a, iv) = UnitStart(b, iv)
 \* ---- declarative partition (C11) ---------------------------------------------
 \* ps: sequence of [s, e]; window s..e; last <= 0 means "all".
 IsPartition(ps, s, e, iv, last) ==
-  IF iv = "once" THEN ps = << [s |-> s, e |-> e] >>
-  ELSE IF s > e THEN ps = << >>
+  IF s > e THEN ps = << >>                                       \* an empty window has no periods, whatever the interval
+  ELSE IF iv = "once" THEN ps = << [s |-> s, e |-> e] >>
   ELSE
     /\ Len(ps) >= 1
     /\ ps[Len(ps)].e = e                                         \* ends at the window end
@@ -105,7 +105,7 @@ Walk(end, s, iv, last, counter, acc) ==
        IN Walk(st - 1, s, iv, last, counter + 1, << [s |-> st, e |-> end] >> \o acc)
 
 Partition(s, e, iv, last) ==
-  IF iv = "once" THEN << [s |-> s, e |-> e] >> ELSE Walk(e, s, iv, last, 0, << >>)
+  IF iv = "once" THEN (IF s > e THEN << >> ELSE << [s |-> s, e |-> e] >>) ELSE Walk(e, s, iv, last, 0, << >>)
 
 SpanContains(s, e, d) == s <= d /\ d <= e
 =============================================================================
